@@ -388,10 +388,17 @@ def rand_word(rng, n, alphabet="abcXYZ019-_~[]%%d"):
     return "".join(rng.choice(alphabet) for _ in range(n))
 
 
+# every byte a field can hold: all but NUL, the line end and the blank (control bytes that the
+# tokenizer takes for separators included: they split the field, on both sides alike)
+WIDE = "".join(chr(c) for c in range(1, 256) if c not in (10, 32))
+
+
 def field(rng, typical, limit):
     r = rng.random()
-    if r < 0.55:
+    if r < 0.5:
         return typical
+    if r < 0.58:
+        return rand_word(rng, rng.choice([1, 3, limit - 1, limit, limit + 1]), WIDE if rng.random() < 0.5 else "a\xe9\xff\x80\x01\x7f\tZ*?\\")
     if r < 0.8:
         return rand_word(rng, rng.choice([1, limit - 1, limit, limit + 1]))
     if r < 0.9:
@@ -436,7 +443,9 @@ PASSWORDS = ["+x acct pass", "+! acct pass", "+x! acct pass", "-! acct pass", "-
 REPLIES = ["OK", "OK acct", "OK acct:123:4", "OK acctx:9", "OK acc", "OK acc:7", "OK ", "OK  two", "NO go away", "NO ", "NO", "AGAIN try later", "AGAIN",
            "MORE challenge text", "MORE", "OKAY", "ok", "BOGUS text", "OK " + "a" * 70, "NO " + "r" * 1100,
            # texts are data, never formats: conversion-looking bytes must come out as they went in
-           "AGAIN 100%% sure", "MORE 50%d off %u", "NO 17 %% 5 %x", "OK ac%%ct"]
+           "AGAIN 100%% sure", "MORE 50%d off %u", "NO 17 %% 5 %x", "OK ac%%ct",
+           # bytes beyond ASCII and control bytes
+           "NO caf\xe9 \x01\x7f\xff", "MORE \ttab\x0bvt", "OK acc\xe9t", "OK \xff\xfe:12", "AGAIN \x80\x81"]
 
 
 class Client:
@@ -795,10 +804,10 @@ JUNK = [b"", b"99 N host", b"99 P :+x a b", b"99 D", b"99 H", b"-1 ? bogus", b"-
         b"5 Z", b"5 %", b"-1 E a b", b"-1 M srv 5", b"98 C 1.2.3.4", b"98 C", b"  ", b"4294967395 D", b"99999999999999999999 H"]
 
 
-ACCOUNTS = ["acct", "acct:123:4", "acctx:9", "acc", "acc:7", "ACCT", "a", "acct2:1"]
-ACCOUNT_PATS = ["*", "acct", "acc", "acctx", "ac*", "?cct", "ACCT", "nomatch", "acct:123", "a\\cct", "acct*", "*t", "a"]
-HOSTS = ["host.example", "host.exampl", "Host.Example", "a.b.example", "example"]
-HOST_PATS = ["*", "*.example", "host.example", "host.exampl", "host.example.", "HOST.EXAMPLE", "nomatch", "host.*", "?ost.example"]
+ACCOUNTS = ["acct", "acct:123:4", "acctx:9", "acc", "acc:7", "ACCT", "a", "acct2:1", "acc\xe9t", "acc\xe9t:5", "ac%ct"]
+ACCOUNT_PATS = ["*", "acct", "acc", "acctx", "ac*", "?cct", "ACCT", "nomatch", "acct:123", "a\\cct", "acct*", "*t", "a", "acc?t", "*\xe9*", "ac%ct", "ACC\xc9T"]
+HOSTS = ["host.example", "host.exampl", "Host.Example", "a.b.example", "example", "h\xf6st.example"]
+HOST_PATS = ["*", "*.example", "host.example", "host.exampl", "host.example.", "HOST.EXAMPLE", "nomatch", "host.*", "?ost.example", "h?st.example", "H\xd6ST.EXAMPLE", "h\xf6st.*"]
 IDENTS = ["ident", "iden", "identx", "~ident", "IDENT"]
 IDENT_PATS = ["*", "ident", "iden", "identx", "~*", "id*", "IDENT", "?dent"]
 CADDRS = ["1.2.3.4", "1.2.3.5", "1.2.255.255", "1.3.0.0", "10.0.0.1", "0::102:304", "0::ffff:1.2.3.4", "2001:db8::1", "2001:db9::1", "0::1"]
